@@ -265,7 +265,7 @@ Proof.
       rewrite E1'. rewrite Reqb_same. assert (alpha = 1) by lra. subst alpha.
       evar_last.
       * apply (@is_derive_minus R_AbsRing R_NormedModule).
-        -- unfold Rpower. auto_derive. repeat split; try assumption. apply Rgt_not_eq. apply Rmult_lt_0_compat; [lra | apply exp_pos].
+        -- unfold Rpower. auto_derive; [|reflexivity]. repeat split; try assumption. apply Rgt_not_eq. apply Rmult_lt_0_compat; [lra | apply exp_pos].
         -- apply is_derive_scal. apply E1_comp_derive; assumption.
       * unfold minus, plus, opp, scal; simpl; unfold mult; simpl. unfold Rpower.
         replace (exp (1 * ln h)) with h by (rewrite Rmult_1_l, exp_ln; auto).
@@ -276,7 +276,7 @@ Proof.
       rewrite (Reqb_ne (alpha - 1) 0) by assumption.
       evar_last.
       * apply (@is_derive_minus R_AbsRing R_NormedModule).
-        -- unfold Rpower. auto_derive. repeat split; try assumption. apply Rgt_not_eq. apply Rmult_lt_0_compat; [lra | apply exp_pos].
+        -- unfold Rpower. auto_derive; [|reflexivity]. repeat split; try assumption. apply Rgt_not_eq. apply Rmult_lt_0_compat; [lra | apply exp_pos].
         -- apply is_derive_scal. apply (cgmy_tail_derive G G_derive (alpha - 1) u h); try assumption; lra.
       * unfold minus, plus, opp, scal; simpl; unfold mult; simpl. unfold Rpower.
         replace (exp ((1 + (alpha - 1)) * ln h)) with (exp (alpha * ln h)) by (f_equal; ring).
